@@ -231,7 +231,7 @@ async fn hostile_producer_variants(h: &mut History, blk: &saito_core::core::cons
     let gp = h.cfg.params.gp;
     let creator = h.b.actors[0].clone();
     let thief = h.b.actors[2].clone();
-    for variant in 0..7u8 {
+    for variant in 0..9u8 {
         let mut rebuild = false;
         let mut b = match Block::deserialize_from_net(&block_bytes(blk)) {
             Ok(b) => b,
@@ -281,6 +281,36 @@ async fn hostile_producer_variants(h: &mut History, blk: &saito_core::core::cons
                 }
                 b.treasury -= 1 + b.treasury / 2;
                 "treasury-lowered"
+            }
+            7 => {
+                // 256 issuance transactions: the per-kind counters of the block's consensus values
+                // are bytes, so the 256th brings the count back to 0
+                for i in 0..256u64 {
+                    let mut tx = Transaction::default();
+                    tx.transaction_type = TransactionType::Issuance;
+                    tx.timestamp = b.timestamp;
+                    tx.add_to_slip(out_slip(&thief.pk, 5_000_000 + i));
+                    tx.sign(&creator.sk);
+                    b.transactions.push(tx);
+                }
+                "256-issuance-transactions"
+            }
+            8 => {
+                // 256 hand-made fee transactions in front of the genuine one (count 257 = 1 mod 256)
+                let at = match b.transactions.iter().position(|t| t.transaction_type == TransactionType::Fee) {
+                    Some(i) => i,
+                    None => continue,
+                };
+                for i in 0..256u64 {
+                    let mut tx = Transaction::default();
+                    tx.transaction_type = TransactionType::Fee;
+                    tx.timestamp = b.timestamp;
+                    let mut o = out_slip(&thief.pk, 7_000_000 + i);
+                    o.slip_type = saito_core::core::consensus::slip::SlipType::MinerOutput;
+                    tx.add_to_slip(o);
+                    b.transactions.insert(at, tx);
+                }
+                "256-forged-fee-transactions-before-the-genuine-one"
             }
             6 => {
                 // one payout / rebroadcast output (slip types other than Normal) spent by two
